@@ -169,6 +169,33 @@ Proof.
            Nested.nested_noisy_example).
 Qed.
 
+(* ---- rejection at every nesting depth (ignoreCritical = false) ----
+   `noisy_crit sc fuel mi x`: x is an input for model mi in which, after elements that may carry skippable noise at every
+   depth, an unrecognised CRITICAL element sits at an element boundary of the model — or, recursively, of a nested model
+   value reached through struct fields and elements of sequences of structs (the bad nested value is the expected next
+   element of its enclosing model; anything may follow it).  The parser rejects x with ErrUnrecognizedField: the nested
+   parser's error reaches the caller from every depth.  Both readers, any segmentation.  (Values of maps of structs are
+   not covered by this relation.) *)
+Theorem unknown_critical_rejected_every_depth : forall sc, schema_wf sc = true ->
+  forall fuel mi x, noisy_crit sc fuel mi x -> decode sc mi false x = Err E_CRITICAL.
+Proof. exact decode_noisy_crit. Qed.
+Print Assumptions unknown_critical_rejected_every_depth.
+
+Theorem unknown_critical_rejected_every_depth_wire : forall sc, schema_wf sc = true ->
+  forall fuel mi segs, noisy_crit sc fuel mi (concat segs) -> decode_wire sc mi false segs = Err E_CRITICAL.
+Proof. exact decode_wire_noisy_crit. Qed.
+Print Assumptions unknown_critical_rejected_every_depth_wire.
+
+(* non-vacuity: the input of `nested_noisy_example`, read with ignoreCritical = false *)
+Example nested_crit_example :
+  noisy_crit pkg_std_encoding_tests_gen_composition 2 3 [2; 6; 9; 1; 170; 1; 1; 5] /\
+  decode pkg_std_encoding_tests_gen_composition 3 false [2; 6; 9; 1; 170; 1; 1; 5] = Err E_CRITICAL.
+Proof.
+  split; [exact Nested.nested_crit_example|].
+  assert (H : schema_wf pkg_std_encoding_tests_gen_composition = true) by (vm_compute; reflexivity).
+  exact (decode_noisy_crit pkg_std_encoding_tests_gen_composition H 2%nat 3%nat [2; 6; 9; 1; 170; 1; 1; 5] Nested.nested_crit_example).
+Qed.
+
 (* ---- generator identity, beyond the byte comparison of the regenerated files: the templates themselves ----
    GenTemplates.v is the control skeleton of the generator's ModelParse template (and the `progress` statements of the
    sequence / map field readers), translated expression by expression on every run.  The critical-type test of the
